@@ -416,6 +416,7 @@ package connect
 //@   nosafety overflow
 //@   assert@call(io.LimitReader#1): 0 <= arg1 && arg1 <= 9223372036854775807 && arg1 == readMaxBytes + 1   // label: the-limit-plus-one-does-not-wrap-around   // tags: C01, C09, C07, C08
 //@   assigns view(dst)
+//@   ensures res != nil ==> !Is(res, io.EOF)   // label: a-failed-decompression-never-reads-as-the-end-of-the-stream-whatever-the-decompressor's-errors-wrap   // tags: C04, C07
 //@   ensures res == nil ==> decompOK(c.decompressors, view(src)) && view(dst) == old(view(dst)) ++ decompBy(c.decompressors, view(src))   // label: appends-decompressed-source
 //@   ensures res == nil && readMaxBytes > 0 ==> |decompBy(c.decompressors, view(src))| <= readMaxBytes          // label: success-implies-within-limit   // tags: C09
 //@   ensures readMaxBytes > 0 && decompOK(c.decompressors, view(src)) && |decompBy(c.decompressors, view(src))| > readMaxBytes ==> res != nil && codeOf(res) == 3   // label: over-limit-is-invalid-argument   // tags: C09
